@@ -615,7 +615,9 @@ var kindTags = map[string][]string{
 	"json":  {`default=["a","b"]`, `prefault=[]`, `default=[1,2,3]`, `default=["a",1,true]`, `prefault=[true,false]`, `default=[-5]`, `required,default=["x"],min=1`, `default={"k":"v"}`, `default=[1.5]`, `default=abc`},
 	"other": {"", "required", "min=1", "max=3", "required,min=1", "nilable", "length=2", "nonempty", "max=1.5"},
 	"str": {"", "nilable,min=1", "prefault=x", "min=1.5", "gt=1", "uuid,email", "enum=a b,required", "enum=a", "regex=^a$,uuid", "default=a b c", "email,email",
-		"url", "url,min=3", "required,url", "uuid,url", "enum=a b,min=2", "enum=a b,url", "length=3", "nonempty", "length=x", "positive"},
+		"url", "url,min=3", "required,url", "uuid,url", "enum=a b,min=2", "enum=a b,url", "length=3", "nonempty", "length=x", "positive",
+		// round 4c: an import written for a rule whose call is not (regex on the Enum path), or for the TEXT of a parameter
+		"regex=^a$,enum=a b", "enum=a b,regex=^a$,required", "default=time.Time", "enum=time.Time other"},
 }
 var kinds = []struct{ ty, cls string }{
 	{"int8", "num"}, {"int16", "num"}, {"int32", "num"}, {"uint", "num"}, {"uint8", "num"}, {"uint16", "num"}, {"uint32", "num"}, {"uint64", "num"},
